@@ -462,6 +462,27 @@ pub fn start_watchdog(property: String, limit_s: u64) {
     });
 }
 
+/// Make the child start with every signal at its default action and nothing blocked, whatever this
+/// process inherited from whoever launched the check (`nohup`, a background job of a
+/// non-interactive shell, ... leave HUP / INT / QUIT ignored): the verdicts must not depend on it.
+pub fn start_with_default_signals(cmd: &mut std::process::Command) {
+    use std::os::unix::process::CommandExt;
+    // SAFETY: signal(2) and sigprocmask(2) are async-signal-safe; nothing else runs between fork and exec
+    unsafe {
+        cmd.pre_exec(|| {
+            for s in 1..32 {
+                if s != libc::SIGKILL && s != libc::SIGSTOP {
+                    libc::signal(s, libc::SIG_DFL);
+                }
+            }
+            let mut set: libc::sigset_t = std::mem::zeroed();
+            libc::sigemptyset(&mut set);
+            libc::sigprocmask(libc::SIG_SETMASK, &set, std::ptr::null_mut());
+            Ok(())
+        });
+    }
+}
+
 /// Run a child process in its own process group with its standard input fed from `input`, under a
 /// generous wall-clock watchdog (expiry = `Err`, to be counted as inconclusive, never a verdict);
 /// whatever is left of the process group is killed afterwards.
